@@ -57,6 +57,20 @@ check("C01", "exploration",
       "adjudicated). Exceptions compared coarsely.",
       "bounded exhaustive program enumeration, differential execution (CPython vs reference GIR interpreter)", "DESIGN.md §2 C01")
 
+check("C03", "exploration",
+      "Deviation-bounded exhaustive mutation for 7 frontends (python, javascript, typescript, java, go, c, php): seeds = every corpus "
+      "file of tests/lang_parser/<lang> (~10 k lines) + ~65 minimal per-construct programs; 0 deviations: every seed alone and all "
+      "together; 1 deviation: line deletion / adjacent-line swap / truncation at every (quick: every sixth) line of every corpus file, "
+      "and every single-byte deletion, swap, truncation and insertion from a 24-symbol (quick 6) bracket/quote/separator alphabet at "
+      "every offset of every small seed; thorough adds all pairs on the two smallest seeds. 37 k (thorough ~400 k) mutants analysed by "
+      "the real lang phase as 40-file projects (failing projects bisected to one file). Oracle: ids unique project-wide, per-file id "
+      "ranges disjoint, block markers balanced with stack discipline, parent = innermost open block, body-valued attributes name "
+      "owned blocks, executable statements inside a method / class initialiser, one %unit_init per file in id order, the real "
+      "GIRBlockViewer accepts the unit, and no exception other than lian's own error_and_quit.",
+      "A refused input (no GIR, error_and_quit) is acceptable. Seeds the lang phase cannot finish in 20 s CPU are not mutated "
+      "(listed in the evidence). Crashes are keyed (language, exception type, innermost lian frame).",
+      "deviation-bounded exhaustive input mutation, structural-invariant oracle", "DESIGN.md §2 C03")
+
 check("C04", "exploration",
       "Every control skeleton with <=2 compound nodes over if/else, while(/else), for-in(/else), C-style for, do-while, switch with "
       "fall-through, try/except/else/finally forms, break, continue, return, raise, nested def - rendered in Python (17.8 k methods) "
